@@ -18,6 +18,8 @@ func (*deepcopyGen) Name() string {
 
 type deepcopyGen struct {
 	processed map[*types.Named]bool
+	// required types are dependencies of generated code, they are generated whatever their tags say
+	required map[*types.Named]bool
 }
 
 func (g *deepcopyGen) GenerateType(c gengo.Context, named *types.Named) error {
@@ -40,7 +42,9 @@ func (g *deepcopyGen) generateType(c gengo.Context, named *types.Named) error {
 	}
 
 	tags, _ := c.Doc(named.Obj())
-	if !gengo.IsGeneratorEnabled(g, tags) {
+	if !gengo.IsGeneratorEnabled(g, tags) && !g.required[named] {
+		// may still turn out to be a dependency of an enabled type
+		delete(g.processed, named)
 		return nil
 	}
 
@@ -115,6 +119,10 @@ func(in *@Type) DeepCopyInto(out *@Type) {
 				DeepCopyIntoName: "DeepCopyInto",
 				DeepCopyName:     "DeepCopy",
 				OnLocalDep: func(named *types.Named) {
+					if g.required == nil {
+						g.required = map[*types.Named]bool{}
+					}
+					g.required[named] = true
 					defers = append(defers, named)
 				},
 			},
